@@ -163,15 +163,15 @@ type instCtx struct {
 	nSk     int
 	maxInst int
 	// ground array reads: canonical array -> canonical index -> index term
-	reads    map[string]map[string]*sx
-	fallback []*sx // Skolem constants and zero: used for variables without a read pattern
-	fbSet    map[string]bool
-	canonMem map[*sx]string
+	reads     map[string]map[string]*sx
+	fallback  []*sx // Skolem constants and zero: used for variables without a read pattern
+	fbSet     map[string]bool
+	canonMem  map[*sx]string
 	atomCanon map[string]string
 	intern    map[string]string
 	varSort   map[string]string
 	otherSort map[string][]*sx // Skolem constants of bit-vector sorts other than 64 bits
-	nReads   int
+	nReads    int
 }
 
 const bv64Sort = "(_ BitVec 64)"
@@ -339,8 +339,63 @@ func (ic *instCtx) collectReads(n *sx, seen map[string]bool) {
 }
 
 type pattern struct {
-	arr string // canonical array
-	off string // canonical offset for (bvadd OFF v); "" for a direct index v
+	arr     string // canonical array
+	off     string // canonical offset for (bvadd OFF v); "" for a direct index v
+	offTerm *sx
+}
+
+// summands flattens nested bvadd (definitions expanded one level at a time).
+func (ic *instCtx) summands(n *sx, depth int, out *[]*sx) {
+	r := ic.resolve(n)
+	if r.head() == "bvadd" && depth < 8 {
+		for _, c := range r.list[1:] {
+			ic.summands(c, depth+1, out)
+		}
+		return
+	}
+	*out = append(*out, n)
+}
+
+// minusSummands returns idx - off when every summand of off occurs among the
+// summands of idx (so the result is a sum of the remaining summands).
+func (ic *instCtx) minusSummands(idx, off *sx) (*sx, bool) {
+	if off == nil {
+		return nil, false
+	}
+	var is, os []*sx
+	ic.summands(idx, 0, &is)
+	ic.summands(off, 0, &os)
+	if len(is) < 2 || len(os) >= len(is) {
+		return nil, false
+	}
+	used := make([]bool, len(is))
+	for _, o := range os {
+		ko := ic.canon(o)
+		found := false
+		for j, it := range is {
+			if !used[j] && ic.canon(it) == ko {
+				used[j], found = true, true
+				break
+			}
+		}
+		if !found {
+			return nil, false
+		}
+	}
+	var rest []*sx
+	for j, it := range is {
+		if !used[j] {
+			rest = append(rest, it)
+		}
+	}
+	if len(rest) == 0 {
+		return &sx{atom: "(_ bv0 64)"}, true
+	}
+	acc := rest[0]
+	for _, t := range rest[1:] {
+		acc = &sx{list: []*sx{{atom: "bvadd"}, acc, t}}
+	}
+	return acc, true
 }
 
 // patterns lists the read patterns of variable v in a quantifier body.
@@ -355,9 +410,9 @@ func (ic *instCtx) patterns(body *sx, v string, out *[]pattern) {
 		} else if idx.head() == "bvadd" && len(idx.list) == 3 {
 			a, b := idx.list[1], idx.list[2]
 			if b.isAtom() && b.atom == v && !hasBound(a) {
-				*out = append(*out, pattern{arr: ic.canon(body.list[1]), off: ic.canon(a)})
+				*out = append(*out, pattern{arr: ic.canon(body.list[1]), off: ic.canon(a), offTerm: a})
 			} else if a.isAtom() && a.atom == v && !hasBound(b) {
-				*out = append(*out, pattern{arr: ic.canon(body.list[1]), off: ic.canon(b)})
+				*out = append(*out, pattern{arr: ic.canon(body.list[1]), off: ic.canon(b), offTerm: b})
 			}
 		}
 	}
@@ -404,7 +459,7 @@ func (ic *instCtx) candidates(body *sx, v string) []*sx {
 	var pats []pattern
 	ic.patterns(body, v, &pats)
 	seen := map[string]bool{}
-	var out []*sx
+	var out, late []*sx
 	add := func(t *sx) {
 		k := ic.canon(t)
 		if !seen[k] {
@@ -433,9 +488,19 @@ func (ic *instCtx) candidates(body *sx, v string) []*sx {
 			if r.head() == "bvadd" && len(r.list) == 3 {
 				if ic.canon(r.list[1]) == p.off {
 					add(r.list[2])
+					continue
 				} else if ic.canon(r.list[2]) == p.off {
 					add(r.list[1])
+					continue
 				}
+			}
+			// matching modulo associativity and commutativity of bvadd: the index is
+			// OFF + rest when the summands of OFF are among the summands of the index
+			if rest, ok := ic.minusSummands(r, p.offTerm); ok {
+				add(rest)
+			} else if p.offTerm != nil && len(late) < 8 {
+				// any other read of the same array is the read at index idx - OFF
+				late = append(late, &sx{list: []*sx{{atom: "bvsub"}, idx, p.offTerm}})
 			}
 		}
 	}
@@ -443,6 +508,9 @@ func (ic *instCtx) candidates(body *sx, v string) []*sx {
 	var eqs []*sx
 	ic.equated(body, v, &eqs)
 	for _, t := range eqs {
+		add(t)
+	}
+	for _, t := range late {
 		add(t)
 	}
 	if len(pats) == 0 || len(out) == 0 {
